@@ -1198,6 +1198,7 @@ where
                                 // Client disconnected inside a transaction.
                                 // Clean up the server and re-use it.
                                 self.stats.disconnect();
+                                self.release();
                                 server.checkin_cleanup().await?;
 
                                 return Err(err);
@@ -1325,9 +1326,9 @@ where
 
                     // Terminate
                     'X' => {
+                        self.release();
                         server.checkin_cleanup().await?;
                         self.stats.disconnect();
-                        self.release();
 
                         return Ok(());
                     }
@@ -1639,14 +1640,19 @@ where
             // The server is no longer bound to us, we can't cancel it's queries anymore.
             debug!("Releasing server back into the pool");
 
+            #[cfg(feature = "verif_hooks")]
+            crate::verif::point("client.before_release").await;
+
+            // The transaction is over: the client's cancel key must stop working now, not
+            // after the cleanup round trips below, during which a late cancel would hit the
+            // cleanup statements or the next client's query on this server.
+            self.release();
+
             server.checkin_cleanup().await?;
 
             server.stats().idle();
             self.connected_to_server = false;
-            #[cfg(feature = "verif_hooks")]
-            crate::verif::point("client.before_release").await;
 
-            self.release();
             self.stats.idle();
         }
     }
@@ -2088,7 +2094,20 @@ where
         .await
         {
             Ok(result) => match result {
-                Ok(message) => Ok(message),
+                Ok(message) => {
+                    // This chunk ends with ReadyForQuery(idle): in transaction mode the server
+                    // is about to go back to the pool, so the client's cancel key must be
+                    // dead before the client can see that its transaction is over.
+                    if self.transaction_mode
+                        && !server.is_data_available()
+                        && !server.in_transaction()
+                        && !server.in_copy_mode()
+                    {
+                        self.release();
+                    }
+
+                    Ok(message)
+                }
                 Err(err) => {
                     pool.ban(address, BanReason::MessageReceiveFailed, Some(client_stats));
                     error_response_terminal(
